@@ -4,6 +4,7 @@ import Driver.CmdAcct
 import Driver.CmdMatch
 import RQ.ModelF.World
 import RQ.ModelF.WorldApi
+import RQ.ModelF.WorldSignal
 /-! Driver command for the free-running world: one request = one whole run (configuration, starting portfolio, the day events and
 the strategy's calls in order); the reply holds, per input, what was published and the state of every account afterwards. -/
 namespace Driver
@@ -131,6 +132,14 @@ def runSegs2 (w : World) (ac : ApiCfg) : List WIn2 → World × List String
     let (w2, segs) := runSegs2 w1 ac rest
     (w2, seg :: segs)
 
+def runSegsS (w : World) : List WIn → World × List String
+  | [] => (w, [])
+  | i :: rest =>
+    let (w1, evs) := w.stepS i
+    let seg := joinSp (evs.map shEv ++ ["##", shWorld w1])
+    let (w2, segs) := runSegsS w1 rest
+    (w2, seg :: segs)
+
 def cmdWorld (toks : Toks) : Option String :=
   match toks with
   | "WRUN" :: rest =>
@@ -144,6 +153,19 @@ def cmdWorld (toks : Toks) : Option String :=
                           openOrders := [], auctionOrders := [], finals := [], turnover := [], commMap := [], mkt := [], today := 0,
                           taxRate := 0.0, phase := .before, log := [] }
       let (w, segs) := runSegs w0 ins
+      let ords := (w.finals.reverse ++ w.openOrders ++ w.auctionOrders).map shOrdFull
+      some (joinSp (segs.intersperse ";;" ++ [";;", "ORDERS"] ++ ords.intersperse "," ++ [";;", "LOG", toString w.log.length]))
+  | "WRUNS" :: rest =>
+      let (cfg, t) := rdWCfg rest
+      let (na, t) := tk t
+      let (accts, t) := rdMany rdAcct (pN na) t
+      let (units, t) := tk t; let (stat, t) := tk t; let (si, t) := tk t; let (fi, t) := tk t
+      let (n, t) := tk t
+      let (ins, _) := rdMany rdWIn (pN n) t
+      let w0 : World := { cfg := cfg, pf := { accounts := accts, units := pF units, staticNav := pF stat }, stockIdx := pON si, futIdx := pON fi,
+                          openOrders := [], auctionOrders := [], finals := [], turnover := [], commMap := [], mkt := [], today := 0,
+                          taxRate := 0.0, phase := .before, log := [] }
+      let (w, segs) := runSegsS w0 ins
       let ords := (w.finals.reverse ++ w.openOrders ++ w.auctionOrders).map shOrdFull
       some (joinSp (segs.intersperse ";;" ++ [";;", "ORDERS"] ++ ords.intersperse "," ++ [";;", "LOG", toString w.log.length]))
   | "WRUN2" :: rest =>
